@@ -459,7 +459,7 @@ func HC03_EWKB() {
 	if !sym.Thorough() {
 		memberLayouts = []geom.Layout{geom.XY, geom.XYM} // quick: the full 4x4 layout mix of members is in HC03_WKB
 	}
-	g := geomTree("g", depth, false, true, sym.Thorough())
+	g := geomTree("g", depth, false, true, false) // member SRIDs: see HC03_MemberSRID
 	assumeNoNaNPoint(g)
 	g = setSRID(g, int(sym.Uint32("srid"))) // 0 = no SRID word; the encoder's own test splits the cases
 	sym.Freeze(g)
@@ -917,4 +917,42 @@ func retT(g geom.T, isNil bool, err error) (geom.T, error) {
 		return nil, err
 	}
 	return g, err
+}
+
+var _ = register("HC03_MemberSRID", HC03_MemberSRID)
+
+// HC03_MemberSRID: collection members carrying their own SRID (small members) round-trip too.
+func HC03_MemberSRID() {
+	ndr := sym.Flip("ndr")
+	memberLayouts = []geom.Layout{geom.XY, geom.XYZM}
+	gc := geom.NewGeometryCollection()
+	n := Count("members", 1, 2)
+	for i := 0; i < n; i++ {
+		m := geomTree(sym.N("m", i), 0, true, true, false)
+		if sym.Flip(sym.N("msrid?", i)) {
+			m = setSRID(m, int(sym.Uint32(sym.N("msrid", i))))
+		}
+		gc.MustPush(m)
+	}
+	var g geom.T = gc
+	assumeNoNaNPoint(g)
+	g = setSRID(g, int(sym.Uint32("srid")))
+	var bo binary.ByteOrder = ewkb.XDR
+	if ndr {
+		bo = ewkb.NDR
+	}
+	want, _ := refEncode(g, ndr, true, false)
+	got, err := ewkb.Marshal(g, bo)
+	sym.Assert(err == nil, "encodable")
+	if err != nil {
+		return
+	}
+	sym.Assert(sameBytes(got, want), "ewkb.Marshal emits the member SRID words of the reference encoder")
+	back, err := ewkb.Unmarshal(got)
+	sym.Assert(err == nil, "emitted EWKB decodes")
+	if err != nil {
+		return
+	}
+	sym.Assert(sameTree(g, back, true), "members keep their own SRID across the round trip")
+	sym.Cover("end")
 }
